@@ -102,7 +102,8 @@ def run(prop, tier, seed):
     for lv in (1, 2):
         st0[lv] = C.run_impl(["opt state %d %s" % (lv, G.cps(p)) for _, p, _ in cases])
         st1[lv] = spread(C.run_model(["opt state %d %s" % (lv, G.cps(p)) for _, p, _ in light]), None)
-        st1[lv] = [a if b is None else b for a, b in zip(st0[lv], st1[lv])]
+        st1[lv] = [a if (b is None or C.timed_out(a, b)) else b for a, b in zip(st0[lv], st1[lv])]
+        st0[lv] = [b if C.timed_out(a) else a for a, b in zip(st0[lv], st1[lv])]
     m = {lv: spread(C.run_model(["opt run %d %d %s %s" % (lv, 4000 if quick else 8000, G.cps(p), G.cps(s)) for _, p, s in light]), "END:fuel|o=|e=")
          for lv in (1, 2)}
     distinct = set()
